@@ -334,6 +334,74 @@ theorem splice_length (l ps : List (K × V)) (i : Int) :
   simp only [List.length_append, List.length_take, List.length_drop]
   omega
 
+/-! ### `key_index`: what the positions are -/
+
+/-- `key_index`: the candidate positions are exactly the indices whose pair has the key … -/
+theorem mem_positions (k : K) (l : List (K × V)) : ∀ (n i : Nat),
+    i ∈ positions k l n ↔ n ≤ i ∧ ∃ p, l[i - n]? = some p ∧ p.1 = k := by
+  induction l with
+  | nil => intro n i; simp [positions]
+  | cons q r ih =>
+    intro n i
+    obtain ⟨k', v'⟩ := q
+    by_cases hk : k' = k
+    · simp only [positions, hk, if_true, List.mem_cons, ih]
+      constructor
+      · rintro (rfl | ⟨hle, p, hp, hpk⟩)
+        · exact ⟨Nat.le_refl _, (k, v'), by simp, rfl⟩
+        · refine ⟨by omega, p, ?_, hpk⟩
+          have : i - n = (i - (n + 1)) + 1 := by omega
+          rw [this]; simpa using hp
+      · rintro ⟨hle, p, hp, hpk⟩
+        by_cases e : i = n
+        · exact Or.inl e
+        · refine Or.inr ⟨by omega, p, ?_, hpk⟩
+          have : i - n = (i - (n + 1)) + 1 := by omega
+          rw [this] at hp; simpa using hp
+    · simp only [positions, hk, if_false, ih]
+      constructor
+      · rintro ⟨hle, p, hp, hpk⟩
+        refine ⟨by omega, p, ?_, hpk⟩
+        have : i - n = (i - (n + 1)) + 1 := by omega
+        rw [this]; simpa using hp
+      · rintro ⟨hle, p, hp, hpk⟩
+        have hne : i ≠ n := by
+          intro e; subst e
+          simp at hp
+          rw [← hp] at hpk; exact hk hpk
+        refine ⟨by omega, p, ?_, hpk⟩
+        have : i - n = (i - (n + 1)) + 1 := by omega
+        rw [this] at hp; simpa using hp
+
+/-- … in increasing order … -/
+theorem positions_sorted (k : K) (l : List (K × V)) : ∀ n, (positions k l n).Pairwise (· < ·) := by
+  induction l with
+  | nil => intro n; simp [positions]
+  | cons q r ih =>
+    intro n
+    obtain ⟨k', v'⟩ := q
+    by_cases hk : k' = k
+    · simp only [positions, hk, if_true, List.pairwise_cons]
+      refine ⟨?_, ih (n + 1)⟩
+      intro j hj
+      have := ((mem_positions k r (n + 1) j).1 hj).1
+      omega
+    · simp only [positions, hk, if_false]; exact ih (n + 1)
+
+/-- … one per value of the key. -/
+theorem positions_length (k : K) (l : List (K × V)) : ∀ n,
+    (positions k l n).length = (valuesOf l k).length := by
+  induction l with
+  | nil => intro n; simp [positions, valuesOf]
+  | cons q r ih =>
+    intro n
+    obtain ⟨k', v'⟩ := q
+    by_cases hk : k' = k
+    · simp [positions, hk, valuesOf_cons, ih (n + 1)]
+    · simp [positions, hk, valuesOf_cons, ih (n + 1)]
+
+example : positions 1 [((1 : Nat), (10 : Nat)), (2, 20), (1, 11)] 0 = [0, 2] := by decide
+
 /-- Non-vacuity: a concrete history with duplicates inserted in the middle. -/
 example :
     (run (empty : OMD Nat Nat)
